@@ -56,6 +56,8 @@ class SimLoop(asyncio.BaseEventLoop):
         self.after_hook = None  # callable() run after each callback
         self.silence = None  # (callable()->last progress time or None if nobody waits, limit)
         self.thread_calls = 0
+        self.progress = None  # callable() -> monotone progress counter of the workload (None: unknown)
+        self._last_progress = None
 
     # --- clock -----------------------------------------------------------------
     def time(self) -> float:
@@ -153,7 +155,13 @@ class SimLoop(asyncio.BaseEventLoop):
                 after_hook()
         handle = None
         if self.steps - self._steps_at_last_jump > self.livelock_steps:
-            self._cut('LIVELOCK')
+            # a busy zero-time workload is not a livelock: the workload must also have stopped making progress
+            p = self.progress() if self.progress is not None else None
+            if p is not None and p != self._last_progress:
+                self._last_progress = p
+                self._steps_at_last_jump = self.steps
+            else:
+                self._cut('LIVELOCK')
         elif self.steps > self.max_steps:
             self._cut('STEPS')
 
@@ -174,6 +182,7 @@ def teardown(loop: SimLoop, rounds: int = 6) -> int:
     loop.step_hook = None
     loop.after_hook = None
     loop.silence = None
+    loop.progress = None
     loop.stalls = []
     loop.horizon = float('inf')
     left = 0
